@@ -16,7 +16,10 @@ import (
 	"testing"
 
 	"github.com/nuts-foundation/nuts-node/http/user"
+	"github.com/nuts-foundation/go-did/did"
+	"github.com/nuts-foundation/go-did/vc"
 	"github.com/nuts-foundation/nuts-node/auth/oauth"
+	"github.com/nuts-foundation/nuts-node/vcr/holder"
 	"github.com/nuts-foundation/nuts-node/vcr/pe"
 	"go.uber.org/mock/gomock"
 )
@@ -106,12 +109,35 @@ func TestVerifC19(t *testing.T) {
 	ctx.iamClient.EXPECT().PostError(gomock.Any(), gomock.Any(), gomock.Any(), gomock.Any()).Return("https://example.com/redirect", nil).AnyTimes()
 	ctx.iamClient.EXPECT().PostAuthorizationResponse(gomock.Any(), gomock.Any(), gomock.Any(), gomock.Any(), gomock.Any()).Return("https://example.com/redirect", nil).AnyTimes()
 	ctx.iamClient.EXPECT().ClientMetadata(gomock.Any(), gomock.Any()).Return(&oauth.OAuthClientMetadata{VPFormats: oauth.DefaultOpenIDSupportedFormats()}, nil).AnyTimes()
-	ctx.iamClient.EXPECT().PresentationDefinition(gomock.Any(), gomock.Any()).Return(&pe.PresentationDefinition{Id: "1"}, nil).AnyTimes()
-	ctx.wallet.EXPECT().BuildSubmission(gomock.Any(), gomock.Any(), gomock.Any(), gomock.Any(), gomock.Any()).Return(nil, nil, errors.New("no credentials")).AnyTimes()
+	// presentation_definition_uri: the body a remote verifier serves is decoded the way auth/client/iam's HTTPClient.doRequest does
+	// (plain json.Unmarshal into a pe.PresentationDefinition); the harness chooses the body through remotePD
+	remotePD := `{"id":"1"}`
+	ctx.iamClient.EXPECT().PresentationDefinition(gomock.Any(), gomock.Any()).DoAndReturn(func(context.Context, string) (*pe.PresentationDefinition, error) {
+		var pd pe.PresentationDefinition
+		if err := json.Unmarshal([]byte(remotePD), &pd); err != nil {
+			return nil, err
+		}
+		return &pd, nil
+	}).AnyTimes()
+	// the wallet: what holder.BuildSubmission does with the definition it is handed is to Match it against the wallet's credentials
+	var walletVC vc.VerifiableCredential
+	_ = json.Unmarshal([]byte(`{"@context":["https://www.w3.org/2018/credentials/v1"],"id":"did:web:example.com#1","type":["VerifiableCredential","NutsOrganizationCredential"],"issuer":"did:web:example.com","issuanceDate":"2024-01-01T00:00:00Z","credentialSubject":{"id":"did:web:example.com:iam:holder","organization":{"name":"x","city":"y"}}}`), &walletVC)
+	ctx.wallet.EXPECT().BuildSubmission(gomock.Any(), gomock.Any(), gomock.Any(), gomock.Any(), gomock.Any()).DoAndReturn(
+		func(_ context.Context, _ []did.DID, _ map[did.DID][]vc.VerifiableCredential, pd pe.PresentationDefinition, _ holder.BuildParams) (*vc.VerifiablePresentation, *pe.PresentationSubmission, error) {
+			if _, _, err := pd.Match([]vc.VerifiableCredential{walletVC}); err != nil {
+				return nil, nil, err
+			}
+			return nil, nil, errors.New("no credentials")
+		}).AnyTimes()
 	fromVerifier := func(in string) string {
 		var params map[string]interface{}
 		if json.Unmarshal([]byte(in), &params) != nil {
 			return "err:harness"
+		}
+		remotePD = `{"id":"1"}`
+		if r, ok := params["__remote_pd"].(string); ok { // (harness-only member: the body served at presentation_definition_uri)
+			remotePD = r
+			delete(params, "__remote_pd")
 		}
 		putState(ctx, "state", OAuthSession{SessionID: "token", OwnSubject: &holderSubjectID, RedirectURI: "https://example.com/iam/holder/cb", OtherDID: &verifierDID})
 		_, err := ctx.client.handleAuthorizeRequestFromVerifier(reqCtx, holderSubjectID, oauthParameters(params), pe.WalletOwnerOrganization)
@@ -206,6 +232,17 @@ func TestVerifC19(t *testing.T) {
 		runFV(verifierParams(map[string]any{oauth.ClientMetadataParam: v}, oauth.ClientMetadataURIParam), "client_metadata-by-value")
 		runFV(verifierParams(map[string]any{oauth.ClientMetadataParam: v, oauth.PresentationDefParam: v}, oauth.ClientMetadataURIParam, oauth.PresentationDefUriParam), "both-by-value")
 	}
+	// definitions that plain json.Unmarshal accepts but the PE schema forbids (nil pointers inside), inline and served remotely
+	for _, v := range []string{`{"id":"1","input_descriptors":[null]}`, `{"id":"1","input_descriptors":[{"id":"1","constraints":null}]}`,
+		`{"id":"1","input_descriptors":[{"id":"1","constraints":{"fields":[null]}}]}`, `{"id":"1","input_descriptors":[{"id":"1","constraints":{"fields":[{"path":["$.type"],"filter":null}]}}]}`,
+		`{"id":"1","input_descriptors":[{"id":"1","constraints":{"fields":[{"path":null}]}}]}`, `{"id":"1","input_descriptors":[{"id":"1","constraints":{"fields":[{"path":["$.type"],"filter":{"type":"string","pattern":null}}]}}]}`,
+		`{"id":"1","submission_requirements":[null],"input_descriptors":[{"id":"1","group":["A"],"constraints":{"fields":[{"path":["$.type"]}]}}]}`,
+		`{"id":"1","submission_requirements":[{"rule":"pick","from":"A"}],"input_descriptors":[{"id":"1","group":["A"],"constraints":{"fields":[{"path":["$.type"]}]}}]}`,
+		`{"id":"1","submission_requirements":[{"rule":"all","from_nested":[null]}],"input_descriptors":[{"id":"1","constraints":{"fields":[{"path":["$.type"]}]}}]}`,
+		`{"id":"1","format":null,"input_descriptors":[{"id":"1","format":null,"constraints":{"fields":[{"path":["$.type"]}]}}]}`, `{"id":"1","input_descriptors":null}`, `{"id":"1","input_descriptors":[]}`, validPD} {
+		runFV(verifierParams(map[string]any{oauth.PresentationDefParam: v}, oauth.PresentationDefUriParam), "pd-schema-invalid-inline")
+	}
+	// (the presentation_definition_uri path runs the REAL HTTP client in harness/inpkg/auth/client/iam)
 	jsystematic([]byte(verifierParams(map[string]any{oauth.PresentationDefParam: validPD, oauth.ClientMetadataParam: validMD}, oauth.ClientMetadataURIParam, oauth.PresentationDefUriParam)),
 		func(b []byte, kind string) { runFV(string(b), kind) })
 	jsystematic([]byte(validPD), func(b []byte, kind string) {
